@@ -363,7 +363,9 @@ def refresh(f):
     g = Facts()
     g.cong_atom = getattr(f, "cong_atom", None)
     for c in f.raw:
-        if c[0] in ("cmp", "not", "and"):
+        if c[0] == "congruent":
+            g.add_cong(c[1], c[2])
+        elif c[0] in ("cmp", "not", "and"):
             g.add(simplify_cond(c, f))
         else:
             g.add(c)
